@@ -142,8 +142,12 @@ func c11Bubble(c c11Case) c11Result {
 	if c.Dir == "server-drops-connections" {
 		srv.dropFrom, srv.dropKind = c.At, c.Kind
 	}
+	if c.Dir == "close-during-redial" {
+		srv.closeAt = c.At // the server drops the first connection after its At-th reply: the next call has to re-dial
+	}
 	dials := 0
 	runaway := false
+	redialStarted, redialRelease := make(chan struct{}), make(chan struct{})
 	var cliConns []*memnet.Conn
 	dialer := func(ctx context.Context) (net.Conn, error) {
 		n := dials
@@ -151,6 +155,11 @@ func c11Bubble(c c11Case) c11Result {
 		if dials > 60 {
 			runaway = true
 			return nil, errors.New("memnet: harness cut-off after 60 connections")
+		}
+		if c.Dir == "close-during-redial" && n >= 1 {
+			// the re-dial takes time: the harness closes the client meanwhile, then lets the dial succeed
+			close(redialStarted)
+			<-redialRelease
 		}
 		if n > c.Conn && !c.Reachable && c.Dir != "server-drops-connections" {
 			return nil, errors.New("memnet: connection refused")
@@ -249,6 +258,17 @@ func c11Bubble(c c11Case) c11Result {
 				return fail("close-panics", "%v", perr)
 			}
 		}
+		if cl != nil {
+			// a closed client leaves nothing behind, whatever its peers do (they are all still connected here)
+			synctest.Wait()
+			time.Sleep(time.Second)
+			synctest.Wait()
+			for k, v := range census.Count("kmipclient.(*conn).readloop", "kmipclient.(*conn).writeloop") {
+				if v != 0 {
+					return fail("closed-client-leaves-goroutines:"+k[strings.LastIndexByte(k, '.')+1:], "%d goroutines remain in %s after Close (the peers are still connected)\n%s", v, k, census.Dump(k))
+				}
+			}
+		}
 		srv.mu.Lock()
 		for _, sc := range srv.srvConns {
 			sc.Close()
@@ -311,6 +331,62 @@ func c11Bubble(c c11Case) c11Result {
 			return false, &r
 		}
 		return true, nil
+	}
+	if c.Dir == "close-during-redial" {
+		for i := 0; i < 4; i++ {
+			id := fmt.Sprintf("req-%d", i+1)
+			res := make(chan error, 1)
+			go func() {
+				res <- safely(func() error {
+					_, err := cl.Request(context.Background(), &payloads.ActivateRequestPayload{UniqueIdentifier: id})
+					if err != nil {
+						return nil
+					}
+					return nil
+				})
+			}()
+			synctest.Wait()
+			select {
+			case perr := <-res:
+				if perr != nil {
+					return fail("call-panics", "%v", perr)
+				}
+				continue
+			default:
+			}
+			select {
+			case <-redialStarted:
+			default:
+				return fail("call-hangs", "call %s neither returned nor is it dialling", id)
+			}
+			// the call is inside the dialer: close the client now, then let the dial succeed
+			if perr := safely(func() error { return cl.Close() }); perr != nil && strings.HasPrefix(perr.Error(), "panic:") {
+				return fail("close-panics", "%v", perr)
+			}
+			synctest.Wait()
+			close(redialRelease)
+			synctest.Wait()
+			select {
+			case perr := <-res:
+				if perr != nil {
+					return fail("call-panics", "%v", perr)
+				}
+			default:
+				return fail("call-hangs", "call %s did not return after the client was closed during its re-dial", id)
+			}
+			break
+		}
+		r := finish()
+		if r.err != nil {
+			return r
+		}
+		// every connection the client dialled must have been closed by it
+		for i, cc := range cliConns {
+			if !cc.IsClosed() {
+				return fail("abandoned-connection-left-open", "connection %d dialled by the client was never closed although the client is closed", i)
+			}
+		}
+		return r
 	}
 	prevFailed := false
 	check := func(ok bool) *c11Result {
@@ -447,6 +523,12 @@ func c11Space() []c11Case {
 				for at := 1; at <= 3; at++ {
 					add("hook-close", at, "")
 				}
+				if reachable && fu == "again" {
+					// Close() lands while a call is re-dialling after the server dropped the connection
+					for at := 1; at <= 3; at++ {
+						add("close-during-redial", at, "")
+					}
+				}
 				if reachable {
 					// a server that keeps accepting and dropping connections (from the first, second or third one on)
 					for at := 0; at <= 2; at++ {
@@ -463,7 +545,7 @@ func c11Space() []c11Case {
 
 func TestC11Faults(t *testing.T) {
 	const name = "TestC11Faults"
-	rec := evid.New("C11", name, "fault enumeration (single caller, synctest bubble): every Read index 1..7 and Write index 1..3 of the first connection x {EOF, closed, reset, short write}, the server closing right after its 1st..3rd reply, a server that keeps accepting and dropping every connection (on accept, after 8 bytes, after the whole request) from the 1st/2nd/3rd connection on, and the server going away exactly when the k-th request is about to be handed to the write loop (yield-point hook), "+
+	rec := evid.New("C11", name, "fault enumeration (single caller, synctest bubble): every Read index 1..7 and Write index 1..3 of the first connection x {EOF, closed, reset, short write}, the server closing right after its 1st..3rd reply, a server that keeps accepting and dropping every connection (on accept, after 8 bytes, after the whole request) from the 1st/2nd/3rd connection on, Close() landing while a call is re-dialling (the dial then succeeds), and the server going away exactly when the k-th request is about to be handed to the write loop (yield-point hook), "+
 		"x {with, without version negotiation} x {server reachable afterwards, not} x follow-up {call again, twice, Close, Close then call, Clone}; two calls precede the follow-up; "+
 		"oracle: every call and Dial/Close/Clone returns (quiescence = hang verdict), response complete and its own or an error, never two consecutive failed calls on a reachable server, <= 4 transmissions per request and a bounded number of connections per call, a closed client serves nothing and dials nothing, census of client connection goroutines 0 at the end; "+
 		"non-trivial = a fault is injected; distinct by case").Attach(t)
